@@ -62,12 +62,17 @@ def scratch_verify_c14(patch, n, src):
 def scratch_verify(patch, demo):
     log = {}
     rel = ["--release"] if "--release-demo" in sys.argv else []
+    miri = "--miri-demo" in sys.argv
+    def demo_cmd():
+        if miri:
+            return ["cargo", "+nightly", "miri", "test", "--offline", "--all-features", "--test", "seed_demo"]
+        return ["cargo", "test", "--offline", "--all-features", "--test", "seed_demo"] + rel
     subprocess.run(["git", "-C", "/repo", "worktree", "remove", "--force", WT], stdout=subprocess.DEVNULL, stderr=subprocess.DEVNULL)
     rc, out = sh(["git", "-C", "/repo", "worktree", "add", "--detach", WT, "HEAD"])
     assert rc == 0, out
     try:
         shutil.copy(demo, os.path.join(WT, "tests", "seed_demo.rs"))
-        rc, out = sh(["cargo", "test", "--offline", "--all-features", "--test", "seed_demo"] + rel, cwd=WT)
+        rc, out = sh(demo_cmd(), cwd=WT)
         log["demo_unpatched"] = {"rc": rc, "tail": out[-600:]}
         rc2, out2 = sh(["git", "apply", patch], cwd=WT)
         log["apply"] = {"rc": rc2, "out": out2[-300:]}
@@ -77,11 +82,11 @@ def scratch_verify(patch, demo):
             shutil.copy(demo, os.path.join(WT, "tests", "seed_demo.rs"))
             ok, n = suite_ok(out3)
             log["suite_patched"] = {"ok": ok, "passed": n, "tail": out3[-400:]}
-            rc4, out4 = sh(["cargo", "test", "--offline", "--all-features", "--test", "seed_demo"] + rel, cwd=WT)
+            rc4, out4 = sh(demo_cmd(), cwd=WT)
             log["demo_patched"] = {"rc": rc4, "tail": out4[-1200:]}
     finally:
         subprocess.run(["git", "-C", "/repo", "worktree", "remove", "--force", WT], stdout=subprocess.DEVNULL, stderr=subprocess.DEVNULL)
-    log["demo_profile"] = "release" if rel else "debug"
+    log["demo_profile"] = "miri" if miri else ("release" if rel else "debug")
     log["confirmed"] = bool(log.get("demo_unpatched", {}).get("rc") == 0 and log.get("apply", {}).get("rc") == 0 and log.get("suite_patched", {}).get("ok") and log.get("demo_patched", {}).get("rc", 0) != 0)
     return log
 
